@@ -1,7 +1,7 @@
 LIBS = ["libavoid"]
 HARNESS = "harness/c04.cpp"
 DRIVER_MODE = "c04"
-LEAN_MODULES = ["AdaptaVerif.Props.C04", "AdaptaVerif.Props.C04Own"]
+LEAN_MODULES = ["AdaptaVerif.Props.C04", "AdaptaVerif.Props.C04Own", "AdaptaVerif.Props.C04AStar"]
 LEVEL = "translation_validation"
 LEVEL_TEXT = ("Per connector the optimum over the spec visibility graph (all shape corners + endpoints, edge iff the proven "
               "segHitsInterior checker finds no interior hit, weights = certified sqrt enclosures) is enclosed in a certified "
@@ -18,8 +18,8 @@ LEVEL_NOTE = ("Per-run certificates, not a proof about the C++: Lee's sweep, inV
               "graph, (vertex, previous vertex) states, validateBendPoint and the cost() bend count modelled in Lean): the "
               "optimum over its admissible routes is enclosed by a potential + witness certificate checked by "
               "Check.OwnGraph.checkOwn (Props/C04Own.checkOwn_sound); dearer than that = search-not-minimal (strict), else the "
-              "known pruned-graph finding. In the corner classes the abstract A* loop of Model/AStar.lean (optimal under "
-              "consistency: Props/C05AStar.search_optimal) is run on the dumped polyline problem and its DONE list is compared "
+              "known pruned-graph finding. In the corner classes the abstract A* loop of Model/AStar.lean (optimal under the "
+              "per-graph consistency check: Props/C04AStar.poly_search_optimal) is run on the dumped polyline problem (Model/PolyAStar.lean) and its DONE list is compared "
               "with the real expansion order (DebugHandler tap; equal-f ties excepted). "
               "That the driver's explicit graph is the spec graph is by construction (specGraph; edge soundness proved, "
               "completeness of the pair enumeration not proved).")
